@@ -135,6 +135,36 @@ func c09(c *Ctx) {
 	c.everyMessageDispatched("R09.I")
 	r.Rule("R09.U", "the table key is unique among the requests in flight: the id a request is registered under comes from the clock at 4 ns resolution (formula evaluated, = C10 R10.C) and is drawn under the send lock - a coarser id lets two callers share one entry, and the second registration replaces the first", 1)
 	c.msgIDFormula("R09.U")
+	r.Rule("R09.F", "an entry leaves the response table only when its waiter has been served or told to retry: Delete on the table is called from writeRPCResponse and processResponse only (a cleanup that evicts the oldest keys evicts the callers that have waited longest)", 1)
+	{
+		allowed := map[string]bool{"writeRPCResponse": true, "processResponse": true}
+		n := 0
+		var bad []string
+		for f := range c.P.AllFunctions() {
+			if !c.P.InRepo(f) || len(f.Blocks) == 0 {
+				continue
+			}
+			for _, cs := range an.Calls(f) {
+				if cs.Name != "(*"+load.UtilsPkg+".SyncIntObjectChan).Delete" {
+					continue
+				}
+				n++
+				top := f
+				for top.Parent() != nil {
+					top = top.Parent()
+				}
+				if !allowed[top.Name()] {
+					bad = append(bad, an.ShortName(top)+" at "+c.pos(cs.Pos()))
+				}
+			}
+		}
+		sort.Strings(bad)
+		if n == 0 {
+			r.Undecide("R09.F", "forget:only-when-served", "", "no call of SyncIntObjectChan.Delete found")
+		} else {
+			r.Check(len(bad) == 0, "R09.F", "forget:only-when-served", "", sprintf("%d call(s) of the table's Delete; outside the delivery and the retry notification: %s", n, strings.Join(bad, "; ")))
+		}
+	}
 	r.Rule("R09.D", "deliver and forget: the result is handed over by a send that cannot be skipped, and every delivering path passes Delete on both tables with the same key", 4)
 	r.Rule("R09.C", "fresh channel: the channel registered for a request is a make(chan) of this call", 1)
 	tr := an.NewTracer()
@@ -420,6 +450,8 @@ func c11(c *Ctx) {
 	if f := c.fn("R11.S", load.SessPkg, "*genericFileSessionLoader", "Store"); f != nil {
 		c.storeSuccessMeansWritten("R11.S", f)
 	}
+	r.Rule("R11.O", "the waiter is registered under the request's id before the request is written (= C09 R09.O): a bad_server_salt that overtakes the sender finds the waiter it has to tell to retry", 1)
+	c.registerBeforeWrite("R11.O")
 	r.Rule("R11.T", "target: the retry marker is sent to the waiter registered under bad_msg_id only", 1)
 	r.Rule("R11.F", "forget: every entry that is sent the marker is deleted from the table", 1)
 	r.Rule("R11.R", "the waiter re-issues the request on *errorSessionConfigsChanged", 1)
